@@ -77,6 +77,7 @@ def pushdown_component(ck, runner, rng, tier):
         stats["files"] += 1
         names = [c[0] for c in cols]
         quoted = ['"' + n.replace('"', '""') + '"' for n in names]
+        pending = []
         usable = [i for i, (n, t) in enumerate(cols) if t in INT_TYPES or t == "Utf8" or t == "Boolean" or t.startswith("Decimal")]
         if tier == "quick" and len(usable) > 6:
             usable = [usable[i] for i in sorted({rng.below(len(usable)) for _ in range(6)})]
@@ -114,29 +115,46 @@ def pushdown_component(ck, runner, rng, tier):
                     o = rng.pick(others)
                     if cols[o][1] in INT_TYPES:
                         extra = f" AND {quoted[o]} IS NOT NULL"
+                cases = []
                 for proj in projs:
                     for setting in ([[]] if tier == "quick" else [[], ["SET enable_optimizer TO false"], ["SET partitions TO 1"], ["SET partitions TO 8"]]):
                         pushed_sql = f"SELECT {proj} FROM '{f}' WHERE {quoted[ci]} = {k}{extra}"
                         ref_sql = f"SELECT {proj} FROM (SELECT *{', _filename' if '_filename' in proj else ''} FROM '{f}') zz WHERE {unpushed}{extra}"
-                        res = runner.run(setting + [pushed_sql, "SET enable_optimizer TO false", ref_sql], timeout=90)
-                        ck.count(comp, 1)
-                        ck.nontrivial(pushed_sql)
-                        if isinstance(res, dict):
-                            ck.violation("pushdown/crash", f"scan with pushed filter crashes: {pushed_sql[:200]}", {"kind": "crash", "stmts": setting + [pushed_sql], "result": res})
-                            continue
-                        a, b = res[len(setting)], res[-1]
-                        if "rows" in a and "rows" in b:
-                            if bag(a["rows"]) != bag(b["rows"]):
-                                ck.violation("pushdown/rows-differ", f"pushed-down scan returns {len(a['rows'])} rows, reading everything and filtering afterwards {len(b['rows'])}: {pushed_sql[:220]}",
-                                             {"kind": "impl-vs-oracle", "settings": setting, "pushed": pushed_sql, "reference": ref_sql, "pushed_rows": a["rows"][:10], "reference_rows": b["rows"][:10]})
-                            else:
-                                stats["agree"] += 1
-                        elif "rows" in b and "rows" not in a:
-                            stats["pushed_err_only"] += 1
-                            ck.violation("pushdown/error-only-when-pushed", f"the pushed-down form fails ({str(a)[:100]}) while filtering afterwards works: {pushed_sql[:200]}",
-                                         {"kind": "impl-vs-oracle", "settings": setting, "pushed": pushed_sql, "reference": ref_sql, "pushed_result": a})
-                        else:
-                            stats["both_err"] += 1
+                        cases.append((setting, pushed_sql, ref_sql))
+                pending.extend(cases)
+        # one request per file: [settings, pushed, optimizer off, reference, reset] per case
+        for i in range(0, len(pending), 12):
+            chunk = pending[i:i + 12]
+            flat = []
+            for setting, pushed_sql, ref_sql in chunk:
+                flat += ["RESET enable_optimizer", "RESET partitions"] + setting + [pushed_sql, "SET enable_optimizer TO false", ref_sql]
+            res = runner.run(flat, timeout=120)
+            if isinstance(res, dict):
+                # isolate
+                for setting, pushed_sql, ref_sql in chunk:
+                    r1 = runner.run(setting + [pushed_sql], timeout=60)
+                    ck.count(comp, 1)
+                    if isinstance(r1, dict):
+                        ck.violation("pushdown/crash", f"scan with pushed filter crashes: {pushed_sql[:200]}", {"kind": "crash", "stmts": setting + [pushed_sql], "result": r1})
+                continue
+            pos = 0
+            for setting, pushed_sql, ref_sql in chunk:
+                a, b = res[pos + 2 + len(setting)], res[pos + 4 + len(setting)]
+                pos += 5 + len(setting)
+                ck.count(comp, 1)
+                ck.nontrivial(pushed_sql)
+                if "rows" in a and "rows" in b:
+                    if bag(a["rows"]) != bag(b["rows"]):
+                        ck.violation("pushdown/rows-differ", f"pushed-down scan returns {len(a['rows'])} rows, reading everything and filtering afterwards {len(b['rows'])}: {pushed_sql[:220]}",
+                                     {"kind": "impl-vs-oracle", "settings": setting, "pushed": pushed_sql, "reference": ref_sql, "pushed_rows": a["rows"][:10], "reference_rows": b["rows"][:10]})
+                    else:
+                        stats["agree"] += 1
+                elif "rows" in b and "rows" not in a:
+                    stats["pushed_err_only"] += 1
+                    ck.violation("pushdown/error-only-when-pushed", f"the pushed-down form fails ({str(a)[:100]}) while filtering afterwards works: {pushed_sql[:200]}",
+                                 {"kind": "impl-vs-oracle", "settings": setting, "pushed": pushed_sql, "reference": ref_sql, "pushed_result": a})
+                else:
+                    stats["both_err"] += 1
     for k, v in stats.items():
         ck.note(comp, k, v)
 
